@@ -40,6 +40,9 @@ type DecEpisode struct {
 
 type DecPlan struct {
 	Episodes []DecEpisode `json:"episodes"`
+	// Sweep: besides the drawn schedule, re-run the first episode under EVERY
+	// single cut position (and every pair of cuts for very short inputs).
+	Sweep bool `json:"sweep_all_cuts"`
 }
 
 // Dec is the decoder scenario. Mode selects the generators' emphasis.
@@ -56,6 +59,9 @@ func (sc *Dec) plan(t *core.Tape, env *Env) *DecPlan {
 	}
 	for i := 0; i < n; i++ {
 		p.Episodes = append(p.Episodes, sc.planEpisode(t, env, i))
+	}
+	if len(p.Episodes[0].Input) <= 96 {
+		p.Sweep = ps.Chance(1, 4)
 	}
 	return p
 }
@@ -371,6 +377,39 @@ func (sc *Dec) Run(t *core.Tape, env *Env) (any, []core.Violation) {
 		if len(v) > 0 {
 			break
 		}
+	}
+	if p.Sweep && len(viols) == 0 {
+		// exhaustive over cut positions (fault-free): every split of the input
+		// into two reads, and into three for very short inputs
+		ep := p.Episodes[0]
+		n := len(ep.Input)
+		ep.Handoff = -1
+		ep.ReaderKind = rkPlain
+		runs := 0
+		for c := 0; c <= n && len(viols) == 0; c++ {
+			e2 := ep
+			e2.Read = core.ReadPlan{Cuts: []int{c}, EOFWithData: ep.Read.EOFWithData}
+			var dd *jsontext.Decoder
+			viols = append(viols, sc.runEpisode(&e2, &dd, env, 100+c)...)
+			runs++
+		}
+		if n <= 20 {
+			for c1 := 0; c1 <= n && len(viols) == 0; c1++ {
+				for c2 := c1 + 1; c2 <= n && len(viols) == 0; c2++ {
+					e2 := ep
+					e2.Read = core.ReadPlan{Cuts: []int{c1, c2}}
+					var dd *jsontext.Decoder
+					viols = append(viols, sc.runEpisode(&e2, &dd, env, 1000)...)
+					runs++
+				}
+			}
+		}
+		if len(viols) > 0 {
+			// make the failing cut part of the rendered plan
+			viols[len(viols)-1].Detail += " [found by the exhaustive cut sweep]"
+		}
+		env.Stats.ProbeN("dec/exhaustive-cut-sweep-executions", runs)
+		env.Stats.Probe("dec/exhaustive-cut-sweep-inputs")
 	}
 	return p, viols
 }
